@@ -1,0 +1,20 @@
+//go:build verif
+
+// Accessors for the verification harness in /verif (build tag "verif").
+// This file only adds exported wrappers around unexported items; it changes
+// no behaviour and is absent from normal builds.
+
+package lifecycle
+
+import (
+	"context"
+
+	"github.com/conduitio/conduit/pkg/foundation/log"
+	"github.com/conduitio/conduit/pkg/lifecycle-poc/funnel"
+	"github.com/conduitio/conduit/pkg/pipeline"
+)
+
+// VerifBuildDLQ wraps buildDLQ.
+func (s *Service) VerifBuildDLQ(ctx context.Context, pl *pipeline.Instance, sourceID string, logger log.CtxLogger) (*funnel.DLQ, error) {
+	return s.buildDLQ(ctx, pl, sourceID, logger)
+}
